@@ -88,7 +88,8 @@ type Contracts struct {
 	P       *Program
 	byFn    map[*ssa.Function]*Contract
 	iface   map[string]*Contract // "pkgpath.Iface.Method"
-	extern  map[string]*Contract // call name -> assumed contract (axiom files)
+	extern  map[string]*Contract // call name -> assumed contract (axiom files); last one parsed
+	externAll map[string][]*Contract
 	specs   map[string]*SpecFunc
 	preds   map[string]*Pred
 	all     []*Contract
@@ -118,7 +119,7 @@ var clauseRe = regexp.MustCompile(`^(requires|ensures|names|modifies|let|nopanic
 var labelRe = regexp.MustCompile(`^\[([^\]]+)\]\s*(.*)$`)
 
 func loadContracts(p *Program, overlay map[string][]byte) *Contracts {
-	cx := &Contracts{P: p, byFn: map[*ssa.Function]*Contract{}, iface: map[string]*Contract{}, extern: map[string]*Contract{}, specs: map[string]*SpecFunc{}, preds: map[string]*Pred{}}
+	cx := &Contracts{P: p, byFn: map[*ssa.Function]*Contract{}, iface: map[string]*Contract{}, extern: map[string]*Contract{}, externAll: map[string][]*Contract{}, specs: map[string]*SpecFunc{}, preds: map[string]*Pred{}}
 	var pkgs []string
 	for path := range p.SSA {
 		pkgs = append(pkgs, path)
@@ -222,6 +223,7 @@ func (cx *Contracts) parseFile(cf *ContractFile, text string) {
 			}
 			cur.Key = "EXTERN " + name
 			cx.extern[name] = cur
+			cx.externAll[name] = append(cx.externAll[name], cur)
 			cx.all = append(cx.all, cur)
 		case strings.HasPrefix(t, "// verif:iface "):
 			flush()
@@ -763,4 +765,33 @@ func parseSpecExpr(text string) (ast.Expr, error) {
 		return nil, fmt.Errorf("%v (rewritten: %s)", err, src)
 	}
 	return ex, nil
+}
+
+// moduleDir: "x/rvesting" for ".../teleport/x/rvesting/keeper".
+func moduleDir(pkgPath string) string {
+	p := strings.TrimPrefix(pkgPath, modPath+"/")
+	parts := strings.Split(p, "/")
+	if len(parts) >= 2 {
+		return parts[0] + "/" + parts[1]
+	}
+	return p
+}
+
+// externFor picks the assumed contract for a call name; when several axiom files define it, the one
+// whose scope package lies in the same module directory as the function being verified wins.
+func (cx *Contracts) externFor(name string, top *ssa.Function) *Contract {
+	cs := cx.externAll[name]
+	if len(cs) == 0 {
+		return nil
+	}
+	if len(cs) == 1 || top == nil || top.Pkg == nil {
+		return cs[len(cs)-1]
+	}
+	md := moduleDir(top.Pkg.Pkg.Path())
+	for _, c := range cs {
+		if moduleDir(c.PkgPath) == md {
+			return c
+		}
+	}
+	return cs[len(cs)-1]
 }
